@@ -13,7 +13,15 @@ Decided:
             pinned tree. A new entry point that mutates the committed file in place, or a new in-place writer under an
             existing entry point, is reported. The table does NOT assert that the listed in-place paths are
             crash-atomic: that part of C02 (state after every syscall prefix) is not claimed.
+  COVER-C02d when the embedded WAL grows, every committed byte behind it moves by `delta`
+            (shift_data_for_wal_growth) and the TOC is rewritten in place: every file offset stored in the TOC must be
+            moved with it. The set of offset fields is read off the type graph of Toc (u64 fields named *offset,
+            reached through Option/Vec/struct fields); adjust_offsets_after_wal_growth must add delta to each
+            (owner type, field). An offset field it misses makes the rewritten TOC point `delta` bytes too low, so the
+            next open (process crash before the next commit) reads garbage or fails. Both growth paths
+            (grow_wal_region, ensure_wal_capacity) call the adjuster after the shift and before rewrite_toc_footer.
 Not decided: recoverability after a crash at each file-system mutation (crash points)."""
+import re
 from . import lib, effects
 from .facts import Place, op_place
 
@@ -66,6 +74,47 @@ INPLACE = {
     'Memvid::put_parallel_inputs': (PUT, 'feature parallel_segments: WAL append, WAL growth, sentinel'),
     'Memvid::doctor_plan': ({W_WAL, 'HeaderCodec::read'}, 'probe opens the WAL; legacy header bytes'),
 }
+
+
+# u64 fields named *offset in the Toc type graph that are not positions in the memory file
+NOT_FILE_OFFSETS = {
+    ('Frame', 'chunk_offset'): 'position inside the parent document text',
+}
+
+
+def toc_offset_fields(F, root='types::manifest::Toc'):
+    """(owner adt name, field) of every u64 `*offset` field reachable through the type graph of Toc"""
+    out, seen, st = set(), set(), [root]
+    paths = sorted(F.adts, key=len, reverse=True)
+    while st:
+        p = st.pop()
+        if p in seen or p not in F.adts:
+            continue
+        seen.add(p)
+        a = F.adts[p]
+        for v in a['variants']:
+            for fld in v['fields']:
+                ty = fld['ty']
+                if ty == 'u64' and fld['name'].endswith('offset'):
+                    out.add((a['name'], fld['name']))
+                for q in re.findall(r'[A-Za-z_][A-Za-z0-9_:]*', ty):
+                    if q in F.adts and q not in seen:
+                        st.append(q)
+    return out, seen
+
+
+def adjusted_fields(F, fn, delta_arg=2):
+    """(owner, field) stores in fn (and its closures) whose new value is old value (+) the delta parameter"""
+    out = set()
+    for b in [fn] + F.closures_of(fn):
+        for st in lib.field_stores(b):
+            fo = st['lhs'].field_owners()
+            if not fo:
+                continue
+            sl = lib.slice_back(b, lib.rv_operands(st['rv']), through_calls=True, at=(st['bb'], None))
+            if (delta_arg in sl.args or b is not fn) and ({'Add', 'AddWithOverflow'} & sl.ops or any(c.name in ('saturating_add', 'checked_add', 'wrapping_add') for c in sl.calls)) and fo[-1] in {x for x in sl.fields}:
+                out.add(fo[-1])
+    return out
 
 
 def direct_live_writes(fn):
@@ -171,6 +220,36 @@ def run(ctx):
                 ctx.ok('MPT-C02b', w, 'the live file is copied into the staging file before the handles are swapped', line=cp[0].line)
             else:
                 ctx.bad('MPT-C02b', w, 'handles are swapped before the staging copy succeeded', detail='swap-before-copy')
+    # ---- d
+    ctx.rule('COVER-C02d', 'every file-offset field in the Toc type graph is moved by adjust_offsets_after_wal_growth; both growth paths adjust after the shift and before the TOC rewrite')
+    adj = ctx.need('COVER-C02d', 'Memvid::adjust_offsets_after_wal_growth')
+    if adj is not None:
+        ctx.touch(adj, len(adj.blocks))
+        want, tys = toc_offset_fields(F)
+        got = adjusted_fields(F, adj)
+        ctx.evaluations += len(tys)
+        ctx.floor('COVER-C02d', len(want), 8, 'file-offset fields in the Toc type graph')
+        for owner, fld in sorted(want):
+            if (owner, fld) in NOT_FILE_OFFSETS:
+                ctx.ok('COVER-C02d', adj, '%s.%s is not a file position (%s)' % (owner, fld, NOT_FILE_OFFSETS[(owner, fld)]))
+            elif (owner, fld) in got:
+                ctx.ok('COVER-C02d', adj, '%s.%s is moved by delta' % (owner, fld))
+            else:
+                ctx.bad('COVER-C02d', adj, '%s.%s is a file offset stored in the TOC but adjust_offsets_after_wal_growth does not move it: after a WAL growth the rewritten TOC '
+                        'points %s bytes before the data, and an open before the next commit reads the wrong bytes' % (owner, fld, 'delta'), sink='%s.%s' % (owner, fld), detail='offset-not-shifted:%s.%s' % (owner, fld))
+        for key in ('Memvid::grow_wal_region', 'Memvid::ensure_wal_capacity'):
+            g = ctx.need('COVER-C02d', key)
+            if g is None:
+                continue
+            ctx.touch(g, len(g.blocks))
+            sh = g.calls_to('Memvid::shift_data_for_wal_growth')
+            ad = g.calls_to('Memvid::adjust_offsets_after_wal_growth')
+            rw = g.calls_to('Memvid::rewrite_toc_footer')
+            ctx.evaluations += 3
+            if sh and ad and rw and lib.call_success_dominates(g, sh[0], ad[0].bb) and g.dominates(ad[0].bb, rw[0].bb):
+                ctx.ok('COVER-C02d', g, 'shift -> adjust offsets -> rewrite TOC', line=ad[0].line)
+            else:
+                ctx.bad('COVER-C02d', g, 'the TOC is rewritten without the offsets having been adjusted after the data shift', detail='growth-order')
     # ---- c
     n = 0
     entries = {e.key: e for e in lib.api_roots(F)}
